@@ -2,7 +2,6 @@ package object
 
 import (
 	"context"
-	"fmt"
 
 	"github.com/risor-io/risor/errz"
 	"github.com/risor-io/risor/op"
@@ -20,7 +19,7 @@ func (iter *ListIter) Type() Type {
 }
 
 func (iter *ListIter) Inspect() string {
-	return fmt.Sprintf("list_iter(%s)", iter.l.Inspect())
+	return iter.inspectVisit(newInspectVisit())
 }
 
 func (iter *ListIter) String() string {
